@@ -572,7 +572,7 @@ def run(ctx):
     rng = ctx.rng
     ctx.set_budget(40, 600)
     pending = []
-    n = ctx.pick(4000, 120000)
+    n = ctx.pick(12000, 200000)
     names = [o[0] for o in OPS]
     weights = [o[1] for o in OPS]
     for _ in range(n):
